@@ -4,7 +4,8 @@
    is a Section variable of the generated files, so every theorem holds for every L. *)
 From Coq Require Import ZArith List.
 From MomoCommon Require Import GenPrelude.
-From C16 Require Gen_Log2_64 Gen_Log2_32 Gen_SegSqrt Gen_SegCnst Log2_Proofs SegMath SegSqrt_Proofs SegCnst_Proofs.
+From C16 Require Gen_Log2_64 Gen_Log2_32 Gen_SegSqrt Gen_SegCnst Log2_Proofs SegMath SegSqrt_Proofs SegCnst_Proofs
+  SegModel SegModel_Inst.
 Local Open Scope Z_scope.
 
 (* UIntMath<size_t>::Log2 (de Bruijn multiplication + table after the or-shift cascade) is the integer
@@ -103,3 +104,62 @@ Theorem C16_cnst_capacity_is_prefix_sum : forall L s, 0 <= L < 64 -> 0 <= s -> (
   Gen_SegCnst.GetIndex L (s + 1) 0 = Gen_SegCnst.GetIndex L s 0 + Gen_SegCnst.GetItemCount L.
 Proof. exact SegCnst_Proofs.capacity_step. Qed.
 Print Assumptions C16_cnst_capacity_is_prefix_sum.
+
+(* ---- L1 model of the container's capacity/count operations (SegModel.v; run against the real container on every
+   check), instantiated with the regenerated sizing functions; every L <= 62, all counts/capacities below 2^62 ---- *)
+
+(* sqrt: any operation other than Clear(shrink=true) on any state satisfying the invariant keeps the invariant and
+   leaves the address (segment allocation id, offset) of every element that exists before and after unchanged:
+   AddBack / Reserve / SetCount upward only APPEND whole segments, Shrink / SetCount downward only REMOVE whole
+   trailing segments that hold no remaining element *)
+Theorem C16_sqrt_grow_keeps_addresses : forall L, 0 <= L <= 62 -> forall st o st',
+  SegModel.inv (Gen_SegSqrt.GetSegItemIndexes L) SegModel_Inst.maxi (SegModel_Inst.SCq L) st ->
+  SegModel.op_ok SegModel_Inst.maxi st o ->
+  SegModel.step (Gen_SegSqrt.GetSegItemIndexes L) (Gen_SegSqrt.GetIndex L) st o = Some st' ->
+  o <> SegModel.Clear true ->
+  SegModel.inv (Gen_SegSqrt.GetSegItemIndexes L) SegModel_Inst.maxi (SegModel_Inst.SCq L) st' /\
+  (forall i, 0 <= i < SegModel.count st -> i < SegModel.count st' ->
+     SegModel.addr (Gen_SegSqrt.GetSegItemIndexes L) st' i = SegModel.addr (Gen_SegSqrt.GetSegItemIndexes L) st i).
+Proof. exact SegModel_Inst.sqrt_grow_keeps_addresses. Qed.
+Print Assumptions C16_sqrt_grow_keeps_addresses.
+
+(* the MOMO_ASSERT(itemIndex == 0) of AddBackCrt never fails, and the invariant (every element's segment exists)
+   holds in every state reachable from the empty array *)
+Theorem C16_sqrt_step_never_asserts : forall L, 0 <= L <= 62 -> forall st o,
+  SegModel.inv (Gen_SegSqrt.GetSegItemIndexes L) SegModel_Inst.maxi (SegModel_Inst.SCq L) st ->
+  SegModel.op_ok SegModel_Inst.maxi st o ->
+  exists st', SegModel.step (Gen_SegSqrt.GetSegItemIndexes L) (Gen_SegSqrt.GetIndex L) st o = Some st' /\
+              SegModel.inv (Gen_SegSqrt.GetSegItemIndexes L) SegModel_Inst.maxi (SegModel_Inst.SCq L) st'.
+Proof. exact SegModel_Inst.sqrt_step_never_asserts. Qed.
+Print Assumptions C16_sqrt_step_never_asserts.
+
+Theorem C16_sqrt_reachable_inv : forall L, 0 <= L <= 62 -> forall st,
+  SegModel.reachable (Gen_SegSqrt.GetSegItemIndexes L) (Gen_SegSqrt.GetIndex L) SegModel_Inst.maxi st ->
+  SegModel.inv (Gen_SegSqrt.GetSegItemIndexes L) SegModel_Inst.maxi (SegModel_Inst.SCq L) st.
+Proof. exact SegModel_Inst.sqrt_reachable_inv. Qed.
+Print Assumptions C16_sqrt_reachable_inv.
+
+Theorem C16_cnst_grow_keeps_addresses : forall L, 0 <= L <= 62 -> forall st o st',
+  SegModel.inv (Gen_SegCnst.GetSegItemIndexes L) SegModel_Inst.maxi (SegModel_Inst.SCc L) st ->
+  SegModel.op_ok SegModel_Inst.maxi st o ->
+  SegModel.step (Gen_SegCnst.GetSegItemIndexes L) (Gen_SegCnst.GetIndex L) st o = Some st' ->
+  o <> SegModel.Clear true ->
+  SegModel.inv (Gen_SegCnst.GetSegItemIndexes L) SegModel_Inst.maxi (SegModel_Inst.SCc L) st' /\
+  (forall i, 0 <= i < SegModel.count st -> i < SegModel.count st' ->
+     SegModel.addr (Gen_SegCnst.GetSegItemIndexes L) st' i = SegModel.addr (Gen_SegCnst.GetSegItemIndexes L) st i).
+Proof. exact SegModel_Inst.cnst_grow_keeps_addresses. Qed.
+Print Assumptions C16_cnst_grow_keeps_addresses.
+
+Theorem C16_cnst_step_never_asserts : forall L, 0 <= L <= 62 -> forall st o,
+  SegModel.inv (Gen_SegCnst.GetSegItemIndexes L) SegModel_Inst.maxi (SegModel_Inst.SCc L) st ->
+  SegModel.op_ok SegModel_Inst.maxi st o ->
+  exists st', SegModel.step (Gen_SegCnst.GetSegItemIndexes L) (Gen_SegCnst.GetIndex L) st o = Some st' /\
+              SegModel.inv (Gen_SegCnst.GetSegItemIndexes L) SegModel_Inst.maxi (SegModel_Inst.SCc L) st'.
+Proof. exact SegModel_Inst.cnst_step_never_asserts. Qed.
+Print Assumptions C16_cnst_step_never_asserts.
+
+Theorem C16_cnst_reachable_inv : forall L, 0 <= L <= 62 -> forall st,
+  SegModel.reachable (Gen_SegCnst.GetSegItemIndexes L) (Gen_SegCnst.GetIndex L) SegModel_Inst.maxi st ->
+  SegModel.inv (Gen_SegCnst.GetSegItemIndexes L) SegModel_Inst.maxi (SegModel_Inst.SCc L) st.
+Proof. exact SegModel_Inst.cnst_reachable_inv. Qed.
+Print Assumptions C16_cnst_reachable_inv.
